@@ -942,6 +942,22 @@ def reduce_regressions(exe, work):
     return outs, b"k,n\n,1\na,1\nb,1\nc,1\nd,1\ne,1\nf,1\n", cmd
 
 
+def analyze_file_order(exe, work):
+    """F26: `rare analyze a.log b.log` against `rare analyze b.log a.log` (a.log = `2`, b.log = `0.0001`), one worker
+    and one reader, so the sample order is the file order: the printed Mean is 1.0000 one way and 1.0001 the other
+    (float Welford recurrence; the exact mean 1.00005… is a hair above the tie of the 4-decimal rendering)."""
+    os.makedirs(work, exist_ok=True)
+    a, b = os.path.join(work, "an-a.log"), os.path.join(work, "an-b.log")
+    with open(a, "wb") as w:
+        w.write(b"2\n")
+    with open(b, "wb") as w:
+        w.write(b"0.0001\n")
+    cmd = [exe, "--nocolor", "--noformat", "analyze", "--snapshot", "--workers", "1", "--readers", "1"]
+    ab = subprocess.run(cmd + [a, b], stdout=subprocess.PIPE, stderr=subprocess.PIPE, timeout=60).stdout
+    ba = subprocess.run(cmd + [b, a], stdout=subprocess.PIPE, stderr=subprocess.PIPE, timeout=60).stdout
+    return norm_snapshot(ab), norm_snapshot(ba), cmd
+
+
 def layout_memory_timing(exe):
     """F25 (snapshot-layout-memory): the table renderer keeps the widest cell it has ever drawn, so the PADDING of the
     final frame depends on which intermediate frames were rendered.  Two lines into `reduce -a last={1}`: once in
@@ -986,7 +1002,7 @@ def run_extra(ctx):
     rnd = Rand(ctx["seed"] * 1000003 + 3)
     exe = build_rare(ctx)
     drv = Driver(ctx["driver"])
-    work = os.path.join(ctx["work"], "e2e")
+    work = os.path.join(ctx["work"], "e2e-%d" % os.getpid())     # two checks of one property may run at the same time
     thorough = ctx["tier"] != "quick"
     kinds = ["histo", "table", "heatmap", "spark", "bars", "analyze", "reduce"]
     nscen = 70 if not thorough else 700
@@ -994,7 +1010,7 @@ def run_extra(ctx):
     nphase = 16 if not thorough else 140
     layouts = ["split", "shuffle", "redeal", "gzip", "stdin", "glob", "one"]
     ncpu = str(max(2, os.cpu_count() or 2))
-    KNOWN = ("spark-value-trim-timing", "snapshot-layout-memory")
+    KNOWN = ("spark-value-trim-timing", "snapshot-layout-memory", "analyze-mean-order")
     violations, stats, secs = [], {}, {}
     nruns = [0]
 
@@ -1290,7 +1306,11 @@ def run_extra(ctx):
     t_late = time.time()
     lk = ["table", "reduce", "spark", "bars", "histo", "heatmap", "analyze"]
     if not thorough:
-        late_plan = [(k, LATE_SIZES[k][0][0], (2, 1, 1)) for k in lk]
+        # quick: the two commands with the widest window every time, two of the others per seed (time budget)
+        rest = lk[2:]
+        i = rnd.intn(len(rest))
+        j = (i + 1 + rnd.intn(len(rest) - 1)) % len(rest)
+        late_plan = [(k, LATE_SIZES[k][0][0], (2, 1, 1)) for k in lk[:2] + [rest[i], rest[j]]]
     else:
         late_plan = [(k, sz, (3, 2, 1) if i == 0 else (2, 1, 1)) for k in lk for i, sz in enumerate(LATE_SIZES[k][1])]
     # the fast reference of the late scenarios against the general one (samples_of + py_rows), on small corpora of the same shape
@@ -1334,6 +1354,14 @@ def run_extra(ctx):
         else:
             viol("e2e-config-dependence", mode="snap", cmd_a=show(cmd), cmd_b=show(cmd) + "  (0.6 s pause after the first line)", out_a=text(fast), out_b=text(slow),
                  explanation="same lines, same command line, paced stdin: the final frame differs in more than padding")
+    # ---- the printed mean of analyze depends on the sample order (F26)
+    ab, ba, cmd = analyze_file_order(exe, work)
+    nruns[0] += 2
+    if ab != ba:
+        viol("analyze-mean-order", cmd=show(cmd) + " a.log b.log  |  … b.log a.log   (a.log = `2`, b.log = `0.0001`)",
+             a_then_b=ab.decode("utf8", "replace"), b_then_a=ba.decode("utf8", "replace"),
+             explanation="the same two files in either order: the printed Mean differs (binary64 Welford recurrence is order sensitive in the last bit, "
+                         "the 4-decimal rendering shows it at a tie)")
     outs, want, cmd = reduce_regressions(exe, work)
     nruns[0] += 8
     if outs != {want}:
